@@ -55,6 +55,7 @@ func C01(c *Ctx) {
 		c01c(c, a)
 		c01dDispatch(c, a)
 		c01e(c, a)
+		dataReaders(c, a.V, "C01-c")
 		c01f(c, a)
 	}
 	r.MinRule("C01-a", 20)
@@ -639,6 +640,49 @@ func c01f(c *Ctx, a *absVariant) {
 		}
 		return true
 	})
+	// the Entrypoint option and the default
+	ep := a.V.Func("", "Entrypoint")
+	np := a.V.Func("", "newParser")
+	okOpt, okDef, okApply := false, false, false
+	if ep != nil {
+		param := ep.Type.Params.List[0].Names[0].Name
+		var as []string
+		ast.Inspect(ep.Body, func(n ast.Node) bool {
+			if x, ok := n.(*ast.AssignStmt); ok && nospace(x.Lhs[0]) == "p.entrypoint" {
+				as = append(as, nospace(x.Rhs[0])+" under ["+strings.Join(guardsOf(ep.Body, x.Pos()), ";")+"]")
+			}
+			return true
+		})
+		okOpt = len(as) == 2 && as[0] == param+" under []" && as[1] == "g.rules[0].name under ["+param+`==""]`
+	}
+	if np != nil {
+		ast.Inspect(np.Body, func(n ast.Node) bool {
+			if kv, ok := n.(*ast.KeyValueExpr); ok && nospace(kv.Key) == "entrypoint" && nospace(kv.Value) == "g.rules[0].name" {
+				okDef = true
+			}
+			return true
+		})
+		// options are applied after the defaults
+		for _, ce := range callsIn(np.Body) {
+			if callSel(ce) == "setOptions" {
+				okApply = true
+			}
+		}
+	}
+	so := a.V.Func("parser", "setOptions")
+	okSet := false
+	if so != nil {
+		ast.Inspect(so.Body, func(n ast.Node) bool {
+			if rs, ok := n.(*ast.RangeStmt); ok && rs.Value != nil && len(rs.Body.List) == 1 {
+				if es, ok := rs.Body.List[0].(*ast.ExprStmt); ok && nospace(es.X) == nospace(rs.Value)+"(p)" {
+					okSet = true
+				}
+			}
+			return true
+		})
+	}
+	r.Check(okOpt && okDef && okApply && okSet, "C01-f", "T.Entrypoint:option-and-default", vn, "builder/static_code.go", "default = first rule; option stores the given name (first rule for \"\"); every option applied in order after the defaults",
+		fmt.Sprintf("option=%t default=%t applied-after-defaults=%t all-options-applied=%t", okOpt, okDef, okApply, okSet))
 	r.Check(okLookup && okReject && usesStart, "C01-f", "T.parse:entrypoint-lookup", vn, a.V.Where(fd.Pos()), "start rule = p.rules[p.entrypoint]; unknown name rejected with errInvalidEntrypoint and nil",
 		fmt.Sprintf("lookup=%t reject=%t start-rule-used=%t", okLookup, okReject, usesStart))
 }
